@@ -872,7 +872,15 @@ func (g *genDeepCopy) doStruct(t *types.Type, sw *generator.SnippetWriter) {
 			g.generateFor(ft, sw)
 			sw.Do("}\n", nil)
 		case uft.Kind == types.Array:
-			sw.Do("out.$.name$ = in.$.name$\n", args)
+			if arrayIsAssignable(uft) {
+				sw.Do("out.$.name$ = in.$.name$\n", args)
+			} else {
+				// The elements hold references: copy them one by one.
+				sw.Do("for i := range in.$.name$ {\n", args)
+				sw.Do("in, out := &in.$.name$[i], &out.$.name$[i]\n", args)
+				g.doArrayElem(uft.Elem, sw)
+				sw.Do("}\n", nil)
+			}
 		case uft.Kind == types.Struct:
 			if ft.IsAssignable() {
 				sw.Do("out.$.name$ = in.$.name$\n", args)
@@ -893,6 +901,53 @@ func (g *genDeepCopy) doStruct(t *types.Type, sw *generator.SnippetWriter) {
 		default:
 			klog.Fatalf("Hit an unsupported type %v for %v, from %v", uft, ft, t)
 		}
+	}
+}
+
+// arrayIsAssignable returns whether plain assignment is a deep copy of the
+// array type t (types.Type.IsAssignable does not look into arrays).
+func arrayIsAssignable(t *types.Type) bool {
+	uet := underlyingType(t.Elem)
+	if deepCopyMethodOrDie(t.Elem) != nil || deepCopyIntoMethodOrDie(t.Elem) != nil {
+		return false
+	}
+	if uet.Kind == types.Array {
+		return arrayIsAssignable(uet)
+	}
+	return uet.Kind == types.Builtin || uet.IsAssignable()
+}
+
+// doArrayElem generates code for one element of an array whose elements are
+// not assignable. in and out point to the element.
+func (g *genDeepCopy) doArrayElem(et *types.Type, sw *generator.SnippetWriter) {
+	uet := underlyingType(et)
+	switch {
+	case deepCopyMethodOrDie(et) != nil || deepCopyIntoMethodOrDie(et) != nil:
+		// Note: a DeepCopyInto exists because it is added if DeepCopy is manually defined
+		sw.Do("in.DeepCopyInto(out)\n", nil)
+	case uet.Kind == types.Map, uet.Kind == types.Slice, uet.Kind == types.Pointer:
+		sw.Do("if *in != nil {\n", nil)
+		g.generateFor(et, sw)
+		sw.Do("}\n", nil)
+	case uet.Kind == types.Array:
+		if !arrayIsAssignable(uet) {
+			sw.Do("for i := range *in {\n", nil)
+			sw.Do("in, out := &(*in)[i], &(*out)[i]\n", nil)
+			g.doArrayElem(uet.Elem, sw)
+			sw.Do("}\n", nil)
+		}
+	case uet.Kind == types.Struct:
+		sw.Do("in.DeepCopyInto(out)\n", nil)
+	case uet.Kind == types.Interface:
+		// Note: do not generate code that won't compile as `DeepCopyinterface{}()` is not a valid function
+		if uet.Name.Name == "interface{}" {
+			klog.Fatalf("DeepCopy of %q is unsupported. Instead, use named interfaces with DeepCopy<named-interface> as one of the methods.", uet.Name.Name)
+		}
+		sw.Do("if *in != nil {\n", nil)
+		sw.Do(fmt.Sprintf("*out = (*in).DeepCopy%s()\n", uet.Name.Name), nil)
+		sw.Do("}\n", nil)
+	default:
+		klog.Fatalf("Hit an unsupported type %v", uet)
 	}
 }
 
